@@ -33,7 +33,7 @@ CHECKS = {
  "C06": _c("Props/C06.v: for each of the 47 identifiers the term regenerated from distance.py evaluates over R to the published closed form (Spec/MetricSpec.v) for every vector length; "
            "registry keys = whitelist; constructor plumbing. Regenerated and re-proved on every run (translator tie).",
            "5/C06", "Coq proof over a fail-closed Python-ast -> Coq translation regenerated every run; translator validation against the real functions",
-           "Trusted: Coq kernel; translator/py2coq.py (validated by eval_ir.py against the real functions on every run); real vs float: Props/C06_rounding.v and C06_rounding_shift.v bound 'up to rounding' explicitly (|fl - exact| <= ((1+u)^k(n) - 1) exact for every vector length n) for 8 plain and 19 decorated identifiers in the standard relative-error model (no underflow/overflow), refute such a bound for squared_chord/matusita/hellinger, and leave the log/exp and 1-ratio bodies unbounded."),
+           "Trusted: Coq kernel; translator/py2coq.py (validated by eval_ir.py against the real functions on every run); real vs float: Props/C06_rounding.v and C06_rounding_shift.v bound 'up to rounding' explicitly (|fl - exact| <= ((1+u)^k(n) - 1) exact for every vector length n) for 8 plain and 19 decorated identifiers in the standard relative-error model (no underflow/overflow), refute such a bound for squared_chord/matusita/hellinger, and leave the log/exp and 1-ratio bodies unbounded; Props/C06_binary64.v proves (Flocq) that round-to-nearest-even binary64 without underflow is such a rounding with u = 2^-53 and bridges every PrimFloat operation to it."),
  "C07": _c("Props/C07.v: the regenerated decorator program contains no in-place addition, hence (frame theorem over a store of array buffers) a decorated call leaves every caller buffer "
            "unchanged and its value depends only on argument contents; the regenerated store-site table of all code reachable from fit/predict has no caller-rooted store.",
            "5/C07", "Coq proof (frame theorem for effect programs) over regenerated decorator/store tables; dynamic byte-comparison and read-only streams as failing-input search",
@@ -44,7 +44,7 @@ CHECKS = {
            "5/C08", "Coq proofs over Reals (Cauchy-Schwarz, Minkowski, log-sum, case factorisations) about closed forms linked to regenerated code terms",
            "Trusted: as C06. Float-level: Props/C08_robust.v proves, for every monotone sign-preserving rounding, that 44 of the 47 regenerated bodies never meet sqrt of a negative, log of a non-positive or a zero divisor (hassanat and mean_censored_euclidean on non-negative vectors by dedicated lemmas; jaccard not provable in that rounding model); overflow/underflow outside the model."),
  "C12": _c("Props/C12_pdf.v and Props/C12_arcs.v (k+1-slot scan = stable-sort prefix; arcs exact incl. ties, k > n-1, non-fresh subgraphs; per-rank maxima; density bound with fallback): density estimation over R: constant, pdf formula, min/max, affine order-preserving map onto [1, MAX_DENSITY], cost = density - 1, "
-           "eliminate_maxima; the same Gallina terms run bit-exactly in PrimFloat against calculate_pdf; arc creation tied by exact correspondence. Props/C12_rounding.v: calculate_pdf under EVERY monotone sign-preserving rounding (min |-> exactly 1, densities >= 1, weakly order preserving, flat case exact; strictness and max |-> MAX_DENSITY shown to be limits of that model).",
+           "eliminate_maxima; the same Gallina terms run bit-exactly in PrimFloat against calculate_pdf; arc creation tied by exact correspondence. Props/C12_rounding.v: calculate_pdf under EVERY monotone sign-preserving rounding (min |-> exactly 1, densities >= 1, weakly order preserving, flat case exact; strictness and max |-> MAX_DENSITY shown to be limits of that model); Props/C12_binary64*.v: binary64 round-to-nearest is such a rounding (Flocq), and calculate_pdf run on primitive floats REFINES the rounded-real kernel with overflow excluded by proof, so the theorems reach the floats the library computes.",
            "5/C12", "Coq proof over one NumOps-generic definition (R theorems, PrimFloat bit-exact run); model/impl correspondence",
            _T + "exp values supplied by numpy as a table (no float exp in Coq)."),
  "C13": _c("Props/C13.v: for both clustering flavours (incl. the in-loop plateau insertion of the unsupervised routine) the predecessor map is a forest, every sample reaches exactly one root = its recorded root, "
